@@ -7,15 +7,19 @@
 
    FULL STATEMENT: for every ctype T and declarator text x, both FFIs: typeof(getctype(T)) is T and
    typeof(getctype(T, x)) is the type x builds over T.
-   PROVED: the name position is the declarator hole (C08_position_is_hole_pointer, _array, _function), the two getctype
-   implementations produce the same text for all T and x (C08_getctype_c_eq_py), the marker test of
-   FFI.getctype holds exactly for arrays (C08_marker_test).
+   PROVED: the name position is the declarator hole: for every T and x, ct_name with x inserted at
+   ct_name_position is the C declaration of T around x according to the independent precedence-based
+   printer of C08/Spec.v (C08_position_is_hole; step lemmas _pointer, _array, _function); both getctype
+   implementations are that printer applied to the stripped text, with '*' texts as pointer declarators
+   (C08_getctype_is_spec); the two getctype implementations and model.get_c_name (third copy of the logic,
+   on the Python type objects) produce the same text for all T and x (C08_getctype_c_eq_py,
+   C08_get_c_name_eq_getctype); the marker test of FFI.getctype holds exactly for arrays (C08_marker_test).
    PARTIAL / MISSING: the re-parsing half (parse (cname T) = T) needs the parser model of C07, whose
    agreement theorem covers primitive/pointer/array/grouping types only; it is checked by the
    correspondence runs (both FFIs, gcc) and not proved here. *)
 From Coq Require Import List Arith NArith ZArith Lia Bool String.
 Import ListNotations.
-From Cffi Require Import C07.Model C07.Realize C08.Gen C08.Model C08.Proofs.
+From Cffi Require Import C07.Model C07.Realize C08.Gen C08.Model C08.Proofs C08.Spec C08.Proofs2 C08.Proofs3.
 
 (* ct_name_position never points outside the name *)
 Theorem C08_position_in_range : forall T, (snd (cname T) <= List.length (fst (cname T)))%nat.
@@ -61,6 +65,28 @@ Theorem C08_getctype_c_eq_py : forall T x, wf_names T = true -> getctype_c T x =
 Proof. exact getctype_agree. Qed.
 Print Assumptions C08_getctype_c_eq_py.
 
+(* THE position theorem: for EVERY ctype T and EVERY text x, the name with x inserted at ct_name_position is
+   `decl_string T x`, the declaration of T around the declarator x printed outside-in with C's precedence
+   rule (C08/Spec.v, written without reference to names or positions) *)
+Theorem C08_position_is_hole : forall T x, getcname T x = decl_string T x.
+Proof. exact position_is_hole. Qed.
+Print Assumptions C08_position_is_hole.
+
+Theorem C08_cname_is_abstract_declarator : forall T, fst (cname T) = decl_string T [].
+Proof. exact cname_is_abstract_declarator. Qed.
+Print Assumptions C08_cname_is_abstract_declarator.
+
+(* ffi_getctype in terms of the specification only (all T, all x) *)
+Theorem C08_getctype_is_spec : forall T x, getctype_c T x = getctype_spec T x.
+Proof. exact getctype_c_is_spec. Qed.
+Print Assumptions C08_getctype_is_spec.
+
+(* model.BaseTypeByIdentity.get_c_name (quals = 0) applied to the '&'-marked name computes the same text *)
+Theorem C08_get_c_name_eq_getctype : forall T x, wf_names T = true ->
+  get_c_name_py (getcname T py_marker) x 0 = getctype_py T x.
+Proof. exact get_c_name_agree. Qed.
+Print Assumptions C08_get_c_name_eq_getctype.
+
 (* non-vacuity *)
 Example C08_example :
   let T := CArr (CPtr (CFunc (CPtr (CArr (CPrim 7) (Some 3%Z))) [CPrim 2; CPtr CVoid] true)) (Some 5%Z) in
@@ -68,5 +94,8 @@ Example C08_example :
   fst (cname T) = s2l "int(*(* *[5])(char, void *, ...))[3]" /\
   getctype_c T (s2l " *x ") = s2l "int(*(* *(*x)[5])(char, void *, ...))[3]" /\
   getctype_py T (s2l " *x ") = s2l "int(*(* *(*x)[5])(char, void *, ...))[3]" /\
-  getctype_c (CPtr (CPrim 7)) (s2l "v") = s2l "int * v".
+  getctype_c (CPtr (CPrim 7)) (s2l "v") = s2l "int * v" /\
+  decl_string T (s2l "x") = s2l "int(*(* *x[5])(char, void *, ...))[3]" /\
+  get_c_name_py (getcname T py_marker) (s2l "*x") 0 = s2l "int(*(* *(*x)[5])(char, void *, ...))[3]" /\
+  qualify 5 (s2l " *x") = s2l " volatile const *x".
 Proof. vm_compute. repeat split; reflexivity. Qed.
